@@ -423,6 +423,23 @@ def no_init_classes(ctx, only=None):
                              "the message) %r, got %r" % (kind, route, "holds" if ok else "violated", want, got))
 
 
+def overlapping_calls(ctx):
+    """Checked coroutine calls of different functions / methods of different objects that OVERLAP in one context without
+    being nested (driven by hand, as an event loop does for tasks given one context) and end first-in-first-out or
+    last-in-first-out: "every other call is fully checked" - afterwards each of them is checked again, nothing stays
+    suspended because another call was in flight when it ended. The cases are C11's interleaved family (its directed
+    part), judged by the same probes."""
+    from vf.props import c11
+
+    for names in (["f0", "f1"], ["f0", "o0"], ["o0", "o1"], ["f0", "f1", "o0"], ["o0", "o1", "f0"]):
+        k = len(names)
+        for order in ("fifo", "lifo"):
+            sched = [[i, "send"] for i in range(k)]
+            sched += [[0, "send"]] * 12 if order == "fifo" else [[k - 1 - min(i // 4, k - 1), "send"] for i in range(12)]
+            c11.interleaved_case(ctx, {"names": names, "schedule": sched, "label": "non-lifo" if order == "fifo" else "lifo"})
+            ctx.count("directed:overlapping-calls")
+
+
 def interpreter_modes(ctx, only=None):
     """The guard does not depend on the interpreter mode: a stand-alone program (vf/scripts/c10_optmode.py: contracts forced
     with enabled=True whose conditions, captures, error factories and invariants re-enter their own callable directly,
@@ -508,11 +525,16 @@ def run(ctx, tier, seed, shard, nshards):
         after_rejected_call(ctx)
         interpreter_modes(ctx)
         no_init_classes(ctx)
+        overlapping_calls(ctx)
 
 
 def replay(ctx, case):
     import sys
 
+    if "names" in case and "schedule" in case:
+        from vf.props import c11
+
+        return c11.interleaved_case(ctx, case)
     if case.get("no_init_class"):
         before = ctx.evaluations
         no_init_classes(ctx, only=case["no_init_class"])
